@@ -317,6 +317,9 @@ impl Part for Valid {
         let (item, labels) = gen_item(&mut t, &self.opts);
         judge(self.name(), item.render(), labels, ctx)
     }
+    fn run_text(&self, text: &str, ctx: &Ctx) -> Option<CaseReport> {
+        Some(judge(self.name(), text.to_string(), vec![], ctx))
+    }
 }
 
 /// Structure-preserving recombination: crosses the validity rules the valid generator obeys while keeping
@@ -561,5 +564,8 @@ impl Part for Recombine {
         let (mut item, mut labels) = gen_item(&mut t, &self.opts);
         recombine(&mut t, &mut item, &mut labels);
         judge(self.name(), item.render(), labels, ctx)
+    }
+    fn run_text(&self, text: &str, ctx: &Ctx) -> Option<CaseReport> {
+        Some(judge(self.name(), text.to_string(), vec![], ctx))
     }
 }
